@@ -630,6 +630,13 @@ func (e *Evaluator) evalBinaryExpr(expr *ExprBinary) (*Cell, error) {
 			receiver := left.Value
 			bound := NewCell(member.Value)
 			bound.Value.Binding = &receiver
+			// the name came from the prototype, it is not a member of the receiver:
+			// a store through this cell is a store of that member (o.length = 3
+			// creates it, on an array or a scalar it fails like any other member
+			// store), see evalAssignment
+			key := right.Value.String()
+			bound.Value.ParentObj = &receiver
+			bound.Value.Str = &key
 			return bound, nil
 		}
 		member.Value.Binding = &left.Value
@@ -799,6 +806,14 @@ func (e *Evaluator) evalAssignment(expr Expr, left *Cell, right *Cell) (*Cell, e
 		// speculative object creation
 		var err error
 		left, err = e.createSpeculativeObjects(left)
+		if err != nil {
+			return nil, e.error(expr.Token(), err.Error())
+		}
+	} else if left.Value.Tag == ValueNativeFn && left.Value.ParentObj != nil && left.Value.Str != nil {
+		// a member named like a method that the object does not have yet: the
+		// target is a new member of the object, not the method's cell
+		var err error
+		left, err = left.Value.ParentObj.SetMember(NewString(*left.Value.Str), NewCell(NewValue(nil)))
 		if err != nil {
 			return nil, e.error(expr.Token(), err.Error())
 		}
